@@ -1,36 +1,10 @@
 (* GenBankProofs.v — theorems about the GenBank reader/writer model
    (model/GenBank.v, model/Insdc.v): totality and round trips of the pieces. *)
-From GTS Require Import Base Arith Tables Pars Loc Seq Origin Insdc GenBank BaseLemmas ParsLemmas.
+From GTS Require Import Base Arith Tables Pars Loc Seq Origin Insdc GenBank BaseLemmas ParsLemmas Safety.
 From Coq Require Import Lia ZifyBool.
 Open Scope Z_scope.
 
 (* ---------- AsDate is total *)
-
-Lemma atoi_total l : atoi l <> Panic /\ atoi l <> OutOfFuel.
-Proof.
-  assert (G : forall neg ds,
-    match ds with
-    | [] => Err EOther
-    | _ => if negb (forallb is_digit ds) then Err EOther
-           else let v := digits_val ds 0 in
-                if (neg : bool) then (if v <=? int64_max + 1 then Ok (- v) else Err EOther)
-                else (if v <=? int64_max then Ok v else Err EOther)
-    end <> Panic /\
-    match ds with
-    | [] => Err EOther
-    | _ => if negb (forallb is_digit ds) then Err EOther
-           else let v := digits_val ds 0 in
-                if (neg : bool) then (if v <=? int64_max + 1 then Ok (- v) else Err EOther)
-                else (if v <=? int64_max then Ok v else Err EOther)
-    end <> OutOfFuel).
-  { intros neg ds. destruct ds as [|x r]; [split; discriminate|].
-    destruct (negb (forallb is_digit (x :: r))); [split; discriminate|].
-    cbv zeta. destruct neg.
-    - destruct (digits_val (x :: r) 0 <=? int64_max + 1); split; discriminate.
-    - destruct (digits_val (x :: r) 0 <=? int64_max); split; discriminate. }
-  unfold atoi. destruct l as [|c t]; [split; discriminate|].
-  destruct (c =? 45); [apply (G true t)|]. destruct (c =? 43); [apply (G false t)|apply (G false (c :: t))].
-Qed.
 
 Theorem as_date_total s : as_date s <> Panic /\ as_date s <> OutOfFuel.
 Proof.
